@@ -178,7 +178,19 @@ def deliver (r : MqReq) (label : String) : M Unit := do
       | [l, m] => (l, m.toInt?)
       | _ => (label, none)
     cacheEnqueue eid (.httpAccessDone sub h (parseAccess lab) ms)
-  | .call eid k => cacheEnqueue eid (.callDone k (parseCallAns label))
+  | .httpCallAccess eid sub h action params =>
+    let (lab, ms) := match label.splitOn "|meta=" with
+      | [l, m] => (l, m.toInt?)
+      | _ => (label, none)
+    cacheEnqueue eid (.httpCallAccessDone sub h action params (parseAccess lab) ms)
+  | .call eid k =>
+    match k with
+    | .httpCall cid h ams _ =>
+      let (lab, ms) := match label.splitOn "|meta=" with
+        | [l, m] => (l, m.toInt?)
+        | _ => (label, none)
+      cacheEnqueue eid (.callDone (.httpCall cid h ams ms) (parseCallAns lab))
+    | _ => cacheEnqueue eid (.callDone k (parseCallAns label))
   | .query eid rs => cacheEnqueueUnlock eid (.queryAnswer rs (parseQAns label))
   | .tokenAuth => pure ()
 
@@ -255,7 +267,18 @@ def stimulus (line : String) : M Unit := do
     let cid ← newConn
     modConn cid fun c => { c with protocol := 1002003 }
     let _ ← connEnqueue cid (.httpGet ((h.drop 1).toString.toNat?.getD 0) rid)
+  | ["http", h, "HEAD", rid] =>
+    -- HEAD is handled exactly as GET (dropping the body is left to the HTTP server)
+    let cid ← newConn
+    modConn cid fun c => { c with protocol := 1002003 }
+    let _ ← connEnqueue cid (.httpGet ((h.drop 1).toString.toNat?.getD 0) rid)
+  | ["http", h, "POST", rid, action, params] =>
+    let cid ← newConn
+    modConn cid fun c => { c with protocol := 1002003 }
+    let _ ← connEnqueue cid (.httpCall ((h.drop 1).toString.toNat?.getD 0) rid action (if params == "-" then "null" else params))
+    -- (handleCall passes a nil json.RawMessage for an empty body, which is marshalled as `null`)
   | ["http", h, "GET404"] => emit s!"H {h} status=404 body=err:system.notFound"
+  | ["http", h, "POST404"] => emit s!"H {h} status=404 body=err:system.notFound"
   | ["disconnect", c] => let _ ← connEnqueue (cidOf c) .dispose
   | ["answer", subject, payload, label, occ] =>
     let g ← get
